@@ -34,10 +34,11 @@ def build_shim():
     return SHIM
 
 
-def shim_env(crash_at, count_file=None, log_file=None):
+def shim_env(crash_at, count_file=None, log_file=None, nosync=False):
     env = dict(os.environ)
     env["LD_PRELOAD"] = SHIM
     env["CRASH_AT"] = str(crash_at)
+    env["CRASH_NOSYNC"] = "1" if nosync else "0"
     if count_file:
         env["CRASH_COUNT_FILE"] = count_file
     if log_file:
@@ -533,7 +534,7 @@ class Target:
         """kill before the N-th database call; returns 'pre' | 'post' | 'other' | None (no verdict)"""
         chk, d = self.chk, self.d
         restore_db(d, "pre")
-        rc, out, err, sp, tp = enginelib.run_impl(self.drv, self.crash_lines, d, keepdb=True, name="crash", env=shim_env(N))
+        rc, out, err, sp, tp = enginelib.run_impl(self.drv, self.crash_lines, d, keepdb=True, name="crash", env=shim_env(N, nosync=True))
         rp = dict(self.replay_base(), kill_before_call=N, call=self.call_desc(N), total_calls=self.total)
         if N <= self.total and rc != 77:
             chk.violation("kill-not-delivered", "the shim did not kill the process before call %d of %d (rc %d): the call sequence is not deterministic" % (N, self.total, rc),
@@ -586,7 +587,7 @@ class Target:
         # (iii) the next process: attach, then the history goes on
         cont = continuation_lines(cont_rng, self.hist, self.bi)
         lines = ["db 2"] + carry(self.hist[:self.pos + 1]) + with_fresh(cont)
-        rc2, out2, err2, sp2, tp2 = enginelib.run_impl(self.drv, lines, d, keepdb=True, name="continue")
+        rc2, out2, err2, sp2, tp2 = enginelib.run_impl(self.drv, lines, d, keepdb=True, name="continue", env=shim_env(0, nosync=True))
         rp2 = dict(rp, state_after_kill=verdict, continuation_process=lines)
         if rc2 != 0:
             chk.violation("db-unusable", "the process continuing after a kill before call %d (%s) failed with rc %d" % (N, self.call_desc(N), rc2), dict(rp2, stderr=err2[-800:], stdout_tail=out2[-10:]))
@@ -655,7 +656,7 @@ class WholeTarget:
 
     def kill(self, N, cont_rng):
         chk, d = self.chk, self.d
-        rc, out, err, sp, tp = enginelib.run_impl(self.drv, self.lines, d, name="crash", env=shim_env(N))
+        rc, out, err, sp, tp = enginelib.run_impl(self.drv, self.lines, d, name="crash", env=shim_env(N, nosync=True))
         rp = dict(self.replay_base(), kill_before_call=N, call=self.call_desc(N), total_calls=self.total)
         if (N <= self.total and rc != 77) or (N > self.total and rc != 0):
             chk.violation("kill-not-delivered", "the shim did not kill the process before call %d of %d (rc %d)" % (N, self.total, rc), dict(rp, stderr=err[-800:]),
@@ -693,7 +694,7 @@ class WholeTarget:
             cont.append("set %d %d" % (k, cont_rng.randint(0, 5)))
         cont.append("build %s" % roots[-1])
         lines = ["db 2"] + carry(self.hist) + with_fresh(cont)
-        rc2, out2, err2, sp2, tp2 = enginelib.run_impl(self.drv, lines, d, keepdb=True, name="continue")
+        rc2, out2, err2, sp2, tp2 = enginelib.run_impl(self.drv, lines, d, keepdb=True, name="continue", env=shim_env(0, nosync=True))
         rp2 = dict(rp, builds_visible_after_kill=j, continuation_process=lines)
         if rc2 != 0:
             chk.violation("db-unusable", "the process continuing after a kill before call %d (%s) failed with rc %d" % (N, self.call_desc(N), rc2), dict(rp2, stderr=err2[-800:], stdout_tail=out2[-10:]))
